@@ -624,6 +624,7 @@ func (db *DB) buildBPTreeRootIdxes(dataFileIds []int) error {
 func (db *DB) buildBPTreeIdx(bucket string, r *Record) error {
 	if _, ok := db.BPTreeIdx[bucket]; !ok {
 		db.BPTreeIdx[bucket] = NewTree()
+		db.BPTreeIdx[bucket].scanLiveOnly = true
 	}
 
 	if err := db.BPTreeIdx[bucket].Insert(r.H.key, r.E, r.H, CountFlagEnabled); err != nil {
